@@ -418,6 +418,8 @@ impl EndpointConfigBuilder {
         let cert_verifier = Arc::new(CertVerifier {
             server_names: vec![primary_server_name.clone()],
         });
+        #[cfg(bmwill_anemo_verif)]
+        crate::verif::crypto::note_verifier(&cert_verifier);
         let (primary_certificate, pkcs8_der) = Self::generate_cert(&keypair, &primary_server_name);
 
         // Client only uses the primary `server_name` when initiating outbound connections
